@@ -224,9 +224,10 @@ func atomicOps() []atomicOp {
 }
 
 type famMod struct {
-	Name string
-	Req  api.CoreFeatures
-	B    []byte
+	Name   string
+	Req    api.CoreFeatures
+	B      []byte
+	Reject bool // invalid by construction: must be rejected under every feature set
 }
 
 func pushArgs(as *wb.Asm, n int) {
@@ -243,7 +244,7 @@ func oneFunc(in, out []byte, mem *wb.Limits, body []byte) []byte {
 
 func buildFamily(depth int) []famMod {
 	var out []famMod
-	add := func(name string, req api.CoreFeatures, b []byte) { out = append(out, famMod{name, req, b}) }
+	add := func(name string, req api.CoreFeatures, b []byte) { out = append(out, famMod{Name: name, Req: req, B: b}) }
 	// A: numeric
 	for _, s := range numericSigs() {
 		as := a()
@@ -662,5 +663,133 @@ func buildNoDep() []famMod {
 	add("nofunc:start", nil, nil, nil, func(m *wb.Module) { m.Start = u32p(5) })
 	add("nofunc:export", nil, nil, nil, func(m *wb.Module) { m.Exports = append(m.Exports, wb.Export{Name: "x", Kind: wb.KindFunc, Idx: 5}) })
 	add("noglobal:constexpr", nil, nil, nil, func(m *wb.Module) { m.AddGlobal(i32, false, wb.CGlobal(3)) })
+	return out
+}
+
+
+// buildDeadCode: validation of stack-polymorphic code against multi-value labels. After an unconditional
+// transfer the operand stack is polymorphic, so k concrete pushes matching the TOP k expected types
+// followed by an instruction that needs more operands is valid (the deeper operands come from the
+// polymorphic stack). Shapes: dead point {unreachable, return, br} x k in {0,1,2} x terminator
+// {br_table, br_if, br, return, end, select, call} x label types T with 2 and 3 mixed results x the label
+// being the function, a block, or a loop (loop labels carry the parameters). Each valid module has an
+// invalid sibling: the same module followed by one more function of the SAME type that is ill-typed
+// (validating the dead code must not change what the type means for the functions after it).
+func buildDeadCode() []famMod {
+	var out []famMod
+	Ts := [][]byte{{i64, i32}, {f32, i64, i32}}
+	P := []byte{i32, i64} // parameters of the callee of the `call` terminator
+	zero := func(as *wb.Asm, ts []byte) {
+		for _, t := range ts {
+			switch t {
+			case i32:
+				as.I32Const(0)
+			case i64:
+				as.I64Const(0)
+			case f32:
+				as.F32Const(0)
+			case f64:
+				as.F64Const(0)
+			}
+		}
+	}
+	lastK := func(ts []byte, k int) []byte {
+		if k > len(ts) {
+			k = len(ts)
+		}
+		return ts[len(ts)-k:]
+	}
+	for _, T := range Ts {
+		n := len(T)
+		for _, shape := range []string{"func", "block", "loop"} {
+			for _, dead := range []string{"unreachable", "return", "br"} {
+				for k := 0; k <= 2; k++ {
+					for _, term := range []string{"br_table", "br_if", "br", "return", "end", "select", "call"} {
+						m := &wb.Module{}
+						callee := m.AddFunc(P, T, nil, func() []byte { as := a(); zero(as, T); return as.B }())
+						as := a()
+						var ftParams, ftResults []byte
+						switch shape {
+						case "func":
+							ftResults = T
+						case "block":
+							as.BlockT(m.Type(nil, T))
+						case "loop":
+							zero(as, T)
+							as.LoopT(m.Type(T, T))
+							for range T {
+								as.Drop()
+							}
+						}
+						// the dead point
+						switch {
+						case dead == "unreachable":
+							as.Unreachable()
+						case shape == "func" && dead == "return":
+							zero(as, T)
+							as.Return()
+						case shape == "func" && dead == "br":
+							zero(as, T)
+							as.Br(0)
+						case dead == "return":
+							as.Return()
+						default:
+							as.Br(1)
+						}
+						// k concrete pushes and the terminator; label 0 is the function / block / loop
+						switch term {
+						case "br_table":
+							zero(as, lastK(T, k))
+							as.I32Const(0).BrTable([]uint32{0}, 0)
+						case "br_if":
+							zero(as, lastK(T, k))
+							as.I32Const(0).BrIf(0)
+						case "br":
+							zero(as, lastK(T, k))
+							as.Br(0)
+						case "return":
+							zero(as, lastK(T, k))
+							as.Return()
+						case "end":
+							zero(as, lastK(T, k))
+						case "select":
+							t := T[n-1]
+							zero(as, lastK([]byte{t, t, i32}, k))
+							as.Select()
+						case "call":
+							zero(as, lastK(P, k))
+							as.Call(callee)
+						}
+						if shape != "func" {
+							as.End()
+							for range T {
+								as.Drop()
+							}
+						}
+						m.ExportFunc("f", m.AddFunc(ftParams, ftResults, nil, as.B))
+						m.ExportFunc("g", callee)
+						name := fmt.Sprintf("dead:%d:%s:%s:k%d:%s", n, shape, dead, k, term)
+						out = append(out, famMod{Name: name, Req: fMV, B: m.Encode()})
+						// the invalid sibling: one more function of the type the label types were taken from
+						follower := a()
+						var fp, fr []byte
+						if shape == "loop" {
+							fp, fr = T, T
+							for i := n - 1; i >= 0; i-- { // parameters returned in reverse order: ill-typed (T is mixed)
+								follower.LocalGet(uint32(i))
+							}
+						} else {
+							fr = T
+							for range T {
+								follower.F64Const(0) // T never contains f64
+							}
+						}
+						m.ExportFunc("h", m.AddFunc(fp, fr, nil, follower.B))
+						out = append(out, famMod{Name: name + ":ill-typed-follower", B: m.Encode(), Reject: true})
+					}
+				}
+			}
+		}
+	}
 	return out
 }
